@@ -3,6 +3,7 @@ package scriggo
 import (
 	"errors"
 	"io"
+	"reflect"
 
 	"github.com/open2b/scriggo/native"
 )
@@ -180,6 +181,22 @@ var vc05Faults = []string{
 	"{% n := copy(sl[a:], sl[:b]) %}{{ n }}",
 	"{% m := map[string][]int16{\"k\": sl} %}{{ m[s][a] }}",
 	"{% var ps *[]int16 %}{% if b > 0 %}{% ps = &sl %}{% end %}{{ (*ps)[a] }}",
+	// native struct types with unexported fields, directly and through defined types
+	"{% x := U{a, s} %}{{ x.A }}",
+	"{% x := U{A: a} %}{{ x.A }}",
+	"{% type P U %}{% x := P{a, s} %}{{ x.A }}",
+	"{% type P U %}{% x := P{A: a} %}{{ x.A }}{% x.A = b %}{{ x.A }}",
+	"{% type P T %}{% x := P{s} %}{% if x == x %}T{% end %}",
+	"{% type P struct{ U } %}{% x := P{U{A: a}} %}{{ x.A }}",
+	"{% type P struct{ A int; b string } %}{% type Q P %}{% x := Q{a, s} %}{{ x.A }}{{ x.b }}",
+	"{% type P []U %}{% x := P{{A: a}, {A: b}} %}{{ x[1].A }}",
+	"{% var x U %}{% y := &x %}{% y.A = a %}{{ x.A }}",
+}
+
+type v5T struct{ s string }
+type v5U struct {
+	A int
+	b string
 }
 
 func vc05_e2e_faults(lo, hi int, small bool) {
@@ -190,8 +207,14 @@ func vc05_e2e_faults(lo, hi int, small bool) {
 		vassume(-2 <= a && a <= 5 && -2 <= b && b <= 5)
 	}
 	s := vsym_string(2)
-	decls := native.Declarations{"sl": &sl, "a": &a, "b": &b, "s": &s}
+	decls := native.Declarations{"sl": &sl, "a": &a, "b": &b, "s": &s, "T": reflect.TypeOf(v5T{}), "U": reflect.TypeOf(v5U{})}
 	tmpl, err := BuildTemplate(Files{"index.txt": []byte(vc05Faults[which])}, "index.txt", &BuildOptions{Globals: decls})
+	if which >= 28 && err != nil {
+		_, ok := err.(*BuildError)
+		vassert(ok, "error-is-a-BuildError")
+		vreach("rejected")
+		return
+	}
 	vassert(err == nil, "builds")
 	var out vbuf
 	err, rec := vrunRecover(tmpl, &out)
@@ -207,7 +230,8 @@ func vc05_e2e_faults(lo, hi int, small bool) {
 
 func vh_c05_e2e_faults1_q()  { vc05_e2e_faults(0, 10, false) }
 func vh_c05_e2e_faults2_q()  { vc05_e2e_faults(10, 20, false) }
-func vh_c05_e2e_faults3_q()  { vc05_e2e_faults(20, len(vc05Faults), false) }
+func vh_c05_e2e_faults3_q()  { vc05_e2e_faults(20, 28, false) }
+func vh_c05_e2e_faults4s_q() { vc05_e2e_faults(28, len(vc05Faults), true) }
 func vh_c05_e2e_faults1s_q() { vc05_e2e_faults(0, 10, true) }
 func vh_c05_e2e_faults2s_q() { vc05_e2e_faults(10, 20, true) }
-func vh_c05_e2e_faults3s_q() { vc05_e2e_faults(20, len(vc05Faults), true) }
+func vh_c05_e2e_faults3s_q() { vc05_e2e_faults(20, 28, true) }
